@@ -172,6 +172,135 @@ pub fn exec_f(h: &Hist) -> Outcome {
     o
 }
 
+/// F2: fairness with overflows allowed. The model no longer knows locations; the public
+/// `len()` of the shared queue is the ground truth instead (exact single-threaded, C03):
+/// a pop that leaves a non-empty shared queue's length unchanged was served locally.
+pub fn exec_f2(h: &Hist) -> Outcome {
+    let nl = h.nlocals.max(1) as usize;
+    let cap = h.cap.max(1) as usize;
+    let mut fail: Option<(String, String)> = None;
+    let mut longest = 0u32;
+    let mut shared_served = 0u32;
+    let mut overflows = 0u32;
+    let ((), _d, _stranded) = qreal::with_queue(h.ordered, nl, cap, |q: &Q<'_>| {
+        let mut streak = vec![0u32; nl];
+        let mut outstanding = 0usize;
+        let mut next = 0u32;
+        let case_json = || serde_json::to_string(h).unwrap();
+        for op in &h.ops {
+            if fail.is_some() {
+                break;
+            }
+            match *op {
+                Op::LPush { q: qi, prio } => {
+                    let qi = pick(qi, nl);
+                    let s0 = q.shared_len();
+                    vkit::hang::guard("F2", "C04/push/does-not-return", case_json, || q.lpush(qi, prio, next));
+                    if q.shared_len() > s0 {
+                        overflows += 1;
+                    }
+                    outstanding += 1;
+                    next += 1;
+                }
+                Op::LPushDefault { q: qi } => {
+                    let qi = pick(qi, nl);
+                    let s0 = q.shared_len();
+                    vkit::hang::guard("F2", "C04/push/does-not-return", case_json, || q.lpush_default(qi, next));
+                    if q.shared_len() > s0 {
+                        overflows += 1;
+                    }
+                    outstanding += 1;
+                    next += 1;
+                }
+                Op::SPush { prio } => {
+                    q.spush(prio, next);
+                    outstanding += 1;
+                    next += 1;
+                }
+                Op::SPop => {}
+                Op::LPop { q: qi } => {
+                    let qi = pick(qi, nl);
+                    // keep the popped queue non-empty (the refill itself may overflow)
+                    if q.local_len(qi) < 2 {
+                        let s0 = q.shared_len();
+                        vkit::hang::guard("F2", "C04/push/does-not-return", case_json, || q.lpush(qi, 0, next));
+                        if q.shared_len() > s0 {
+                            overflows += 1;
+                        }
+                        outstanding += 1;
+                        next += 1;
+                    }
+                    let s0 = q.shared_len();
+                    let got = vkit::hang::guard("F2", "C04/pop/does-not-return", case_json, || q.lpop(qi));
+                    let s1 = q.shared_len();
+                    match got {
+                        None => {
+                            if outstanding > 0 {
+                                fail = Some(("C06/F2/pop-none-while-work-waiting".into(), format!("{outstanding} items outstanding")));
+                            }
+                        }
+                        Some(_) => {
+                            outstanding -= 1;
+                            if s0 == 0 {
+                                streak[qi] = 0;
+                            } else if s1 + 1 == s0 {
+                                shared_served += 1;
+                                streak[qi] = 0;
+                            } else if s1 == s0 {
+                                streak[qi] += 1;
+                                longest = longest.max(streak[qi]);
+                                if streak[qi] >= 61 {
+                                    let kind = if h.ordered { "ordered" } else { "plain" };
+                                    fail = Some((
+                                        format!("C06/F2/{kind}/shared-queue-starved-for-61-pops"),
+                                        format!(
+                                            "{} consecutive pops on local {qi} were served locally while the shared queue reported {} item(s) before each of them",
+                                            streak[qi], s0
+                                        ),
+                                    ));
+                                }
+                            } else {
+                                fail = Some((
+                                    "C06/F2/shared-len-jumped-during-a-pop".into(),
+                                    format!("shared len {s0} -> {s1} across one pop"),
+                                ));
+                            }
+                        }
+                    }
+                    // pops on other queues do not interrupt a queue's own window, but an empty
+                    // shared queue does
+                    if q.shared_len() == 0 {
+                        for s in streak.iter_mut() {
+                            *s = 0;
+                        }
+                    }
+                }
+            }
+        }
+    });
+    let mut o = Outcome::pass()
+        .nt(longest >= 30 && shared_served >= 1 && overflows >= 1)
+        .class_if(shared_served >= 1, "shared-item-served-by-local-pop")
+        .class_if(longest >= 60, "window-60-reached")
+        .class_if(overflows >= 1, "overflow-happened")
+        .class_if(h.ordered, "ordered-queue")
+        .class_if(!h.ordered, "plain-queue");
+    if let Some((a, b)) = fail {
+        o.set_fail(a, b);
+    }
+    o
+}
+
+fn hist_f2(max_ops: usize) -> impl Strategy<Value = Hist> {
+    (
+        any::<bool>(),
+        prop_oneof![4 => Just(1u8), 1 => Just(2u8)],
+        prop_oneof![3 => 2u16..=4, 2 => 5u16..=9, 1 => 10u16..=33],
+        proptest::collection::vec(qreal::op(7, 9, 1, 0), 100..max_ops),
+    )
+        .prop_map(|(ordered, nlocals, cap, ops)| Hist { ordered, nlocals, cap, ops })
+}
+
 /// I: idle queues obtain work. Any history; exact count oracle.
 pub fn exec_i(h: &Hist) -> Outcome {
     let nl = h.nlocals.max(2) as usize;
@@ -278,6 +407,7 @@ pub fn exec_i(h: &Hist) -> Outcome {
 pub fn replay(sub: &str, case: serde_json::Value) -> Outcome {
     match sub {
         "F" => exec_f(&serde_json::from_value(case).expect("case")),
+        "F2" => exec_f2(&serde_json::from_value(case).expect("case")),
         "I" => exec_i(&serde_json::from_value(case).expect("case")),
         _ => Outcome::fail("C06/replay/unknown-sub", sub.to_string()),
     }
@@ -309,6 +439,11 @@ pub fn main(args: &Args) -> i32 {
         &mk("F", "pop-heavy histories keeping each popped local queue non-empty and below capacity while items sit in the shared queue; non-trivial = a window of >=30 consecutive local-served pops with the shared queue non-empty was reached and a shared item was served by a local pop", args.cases(6_000, 200_000)),
         || hist_f(args.tier.pick(260, 600)),
         exec_f,
+    ));
+    ev.add(vkit::run_prop(
+        &mk("F2", "pop-heavy histories with small capacities so that pushes overflow into the shared queue; the shared queue's own len() before/after each pop tells who served it; non-trivial = an overflow happened, a shared item was served by a local pop and a window of >=30 locally-served pops with the shared queue non-empty was reached", args.cases(6_000, 200_000)),
+        || hist_f2(args.tier.pick(400, 800)),
+        exec_f2,
     ));
     ev.add(vkit::run_prop(
         &mk("I", "arbitrary push/pop histories over 2..4 local queues + shared with small capacities (overflows and steals happen); non-trivial = some pop returned an item pushed elsewhere (stolen or via the shared queue)", args.cases(30_000, 1_000_000)),
